@@ -80,7 +80,7 @@ def plan(tier):
              'non-trivial = digits are lost or exponents differ (integer sources) / value needs rounding or has >= p-1 significant bits (to floating)' % len(lines),
         bound=dict(programs=len(lines)),
         assumptions=[
-                     'radix-10 conversions between binary floating point and scaled_integer are inexact by construction: an off-by-one unit there is counted (outcome decimal_scaling_*) but not judged; exact cases are judged',
+                     'radix-10 conversions between binary floating point and scaled_integer are reported in violation classes of their own (…/decimal/…): the scaling factor is not exactly representable, so they are a separate (known) finding and never mix with the radix-2 classes',
                      'scaled -> floating is judged bit-exactly against nearest-even rounding of the exact value (radix 2)'],
         deadline_s=1500 if t else 240,
     )
